@@ -4,6 +4,7 @@
   code: the output of a failed attempt is discarded).
 -/
 import CharsetProof.Model.Codec
+import CharsetProof.Model.Cjk
 namespace Charset
 
 /-- the retry loop: `beginOff`/`endOff` move inwards by one byte per "invalid"/"incomplete" error,
@@ -29,6 +30,6 @@ def Codec.strict : Codec → Option (Bytes → Except ErrKind Text)
   | .table tbl => some (tableStrict tbl)
   | .utf8 => some utf8Strict
   | .utf16 le => some (utf16Strict le)
-  | .external _ => none
+  | .external id => Cjk.strictOf id   -- the multi-byte legacy decoders (Model/Cjk.lean); `none` for what is not modelled (hz)
 
 end Charset
